@@ -7,7 +7,7 @@
      binary node  = [key; hasLeft + 2*hasRight + 4*hasParent + 8*a; parentKey or 0]
                     a = 1 black / 0 red (red-black), a = b + 128 (AVL balance factor b)
      B-tree node  = [nKeys; nChildren; hasParent; parent's first key or 0; key_1 .. key_n]           *)
-From VF Require Import Common.Base C01.Order C01.SortedMap C01.BinTree C01.RB C01.AVL C01.BTree C02.Inv C02.Dump.
+From VF Require Import Common.Base C01.Order C01.CmpSel C01.SortedMap C01.BinTree C01.RB C01.AVL C01.BTree C02.Inv C02.Dump.
 Local Open Scope Z_scope.
 
 Inductive kind := KRB | KAVL | KBT (m : nat).
@@ -16,11 +16,11 @@ Inductive mstate := MRB (s : RB.state Z Z) | MAVL (s : AVL.state Z Z) | MBT (m :
 Definition init_m (k : kind) : mstate :=
   match k with KRB => MRB (RB.empty Z Z) | KAVL => MAVL (AVL.empty Z Z) | KBT m => MBT m (BTree.empty Z Z) end.
 
-Definition model_step (st : mstate) (o : op Z Z) : mstate * out Z Z :=
+Definition model_step (zc : Z -> Z -> Z) (st : mstate) (o : op Z Z) : mstate * out Z Z :=
   match st with
-  | MRB s => let '(s', r) := RB.step Z Z zcmp 0 s o in (MRB s', r)
-  | MAVL s => let '(s', r) := AVL.step Z Z zcmp 0 s o in (MAVL s', r)
-  | MBT m s => let '(s', r) := BTree.step Z Z zcmp 0 m s o in (MBT m s', r)
+  | MRB s => let '(s', r) := RB.step Z Z zc 0 s o in (MRB s', r)
+  | MAVL s => let '(s', r) := AVL.step Z Z zc 0 s o in (MAVL s', r)
+  | MBT m s => let '(s', r) := BTree.step Z Z zc 0 m s o in (MBT m s', r)
   end.
 
 Definition b2z (b : bool) : Z := if b then 1 else 0.
@@ -92,7 +92,7 @@ Fixpoint map_ann {K V A A'} (f : A -> option A') (t : BinTree.tree K V A) : opti
   end.
 
 (* the property, evaluated on the implementation's dump alone *)
-Definition prop_holds (k : kind) (l : list Z) (sz : Z) : bool :=
+Definition prop_holds (zc : Z -> Z -> Z) (k : kind) (l : list Z) (sz : Z) : bool :=
   match k with
   | KRB =>
     match dec_bin (S (length l)) l with
@@ -100,7 +100,7 @@ Definition prop_holds (k : kind) (l : list Z) (sz : Z) : bool :=
       match rebuild d with
       | Some t =>
         match map_ann (fun a => if a =? 1 then Some B else if a =? 0 then Some R else None) t with
-        | Some t' => rb_inv_b Z unit zcmp (RB.mkState t' sz) && parent_ok_b Z.eqb d
+        | Some t' => rb_inv_b Z unit zc (RB.mkState t' sz) && parent_ok_b Z.eqb d
         | None => false
         end
       | None => false
@@ -113,7 +113,7 @@ Definition prop_holds (k : kind) (l : list Z) (sz : Z) : bool :=
       match rebuild d with
       | Some t =>
         match map_ann (fun a => Some (a - 128)) t with
-        | Some t' => avl_inv_b Z unit zcmp (AVL.mkState t' sz) && parent_ok_b Z.eqb d
+        | Some t' => avl_inv_b Z unit zc (AVL.mkState t' sz) && parent_ok_b Z.eqb d
         | None => false
         end
       | None => false
@@ -124,7 +124,7 @@ Definition prop_holds (k : kind) (l : list Z) (sz : Z) : bool :=
     match dec_bt (S (length l)) l with
     | Some d =>
       match rebuild_bt d with
-      | Some r => bt_inv_b Z unit zcmp m (BTree.mkState r sz false) && parent_ok_bt_b Z.eqb d
+      | Some r => bt_inv_b Z unit zc m (BTree.mkState r sz false) && parent_ok_bt_b Z.eqb d
       | None => false
       end
     | None => false
@@ -163,18 +163,19 @@ Definition model_agrees (st : mstate) (l : list Z) (sz : Z) (emp : bool) (nkeys 
    c_branch = true: every step starts from the state after the path (one case = one reachable shape and all
    its next operations); false: the steps are consecutive. A step = (operations applied without a dump, operation,
    dump after it, Size(), Empty(), len(Keys()) after it); a dump [-1] records a panic of the real operation. *)
-Record case := { c_kind : kind; c_path : list (op Z Z); c_branch : bool;
+Record case := { c_kind : kind; c_cmp : cmpsel; c_path : list (op Z Z); c_branch : bool;
                  c_steps : list (list (op Z Z) * op Z Z * list Z * Z * bool * Z) }.
 
-Definition do_step (k : kind) (branch : bool) (st : mstate)
+Definition do_step (zc : Z -> Z -> Z) (k : kind) (branch : bool) (st : mstate)
            (x : list (op Z Z) * op Z Z * list Z * Z * bool * Z) : mstate * nat :=
   let '(pre, o, l, sz, emp, nkeys) := x in
-  let st' := fst (model_step (fst (run model_step st pre)) o) in
+  let st' := fst (model_step zc (fst (run (model_step zc) st pre)) o) in
   (if branch then st else st',
-   kind_of (model_agrees st' l sz emp nkeys) (prop_holds k l sz && counts_hold k l sz emp nkeys)).
+   kind_of (model_agrees st' l sz emp nkeys) (prop_holds zc k l sz && counts_hold k l sz emp nkeys)).
 
 Definition check_case (c : case) : nat :=
-  let st0 := fst (run model_step (init_m (c_kind c)) (c_path c)) in
-  scan (do_step (c_kind c) (c_branch c)) st0 (c_steps c) 0.
+  let zc := zcmp_of (c_cmp c) in
+  let st0 := fst (run (model_step zc) (init_m (c_kind c)) (c_path c)) in
+  scan (do_step zc (c_kind c) (c_branch c)) st0 (c_steps c) 0.
 
 Definition mismatches (cs : list case) : list (nat * nat) := find_bad check_case cs.
